@@ -759,7 +759,7 @@ func ruleMark(r *core.Reporter) {
 				if ret, ok := in.(*ssa.Return); ok {
 					if len(ret.Results) != 1 {
 						okAll = false
-					} else if c, ok := ret.Results[0].(*ssa.Const); !ok || c.Value == nil || constant.BoolVal(c.Value) {
+					} else if vals, okc := res.BoolReturn(ret); !okc || anyTrue(vals) {
 						okAll, detail = false, "a child with work does not force `false`"
 					}
 				}
@@ -1260,4 +1260,13 @@ func rulePreExits(r *core.Reporter) {
 		}
 	}
 	r.Floor("whole-seed terminal marks in the preprocessor", n, 1)
+}
+
+func anyTrue(vs []bool) bool {
+	for _, v := range vs {
+		if v {
+			return true
+		}
+	}
+	return false
 }
